@@ -24,7 +24,7 @@ VERIF = os.path.dirname(os.path.dirname(os.path.abspath(__file__)))
 ENGINE_OF = {
     'C01': 'world', 'C02': 'world', 'C05': 'world', 'C06': 'world',
     'C07': 'world', 'C19': 'twin',
-    'C03': 'dispatch', 'C04': 'dispatch', 'C10': 'dispatch', 'C20': 'dispatch',
+    'C03': 'dispatch', 'C04': 'dispatch', 'C10': 'dispatch', 'C20': 'transform',
     'C08': 'coro', 'C09': 'coro',
     'C11': 'restree', 'C12': 'restree', 'C16': 'popul', 'C17': 'restree',
     'C13': 'loop', 'C14': 'loop', 'C15': 'worldfile',
@@ -313,7 +313,7 @@ def check(prop, tier, verif_seed, budget_s=None, jobs=None, max_runs=None,
             'VERIF_BUDGET_S', 20 if tier == 'quick' else 480))
     if max_runs is None:
         max_runs = int(os.environ.get(
-            'VERIF_MAX_RUNS', 20000 if tier == 'quick' else 2000000))
+            'VERIF_MAX_RUNS', 200000 if tier == 'quick' else 20000000))
     if jobs is None:
         jobs = int(os.environ.get('VERIF_JOBS',
                                   min(16, os.cpu_count() or 1)))
